@@ -1023,12 +1023,31 @@ def leaf_writer(prog, res, rule, f, leaf_items, prefix):
     items = io_only(leaf_items)
     cur = items
     ok = True
+    ORDER = ['1', '2', '4', '-1']
+
+    def types_of(cond, remaining):
+        """the element types (of those still possible) for which a boolean combination of comparisons of _data_type with constants holds"""
+        py = re.sub(r'\(\(int\)this\._data_type (==|!=) (-?\d+)\)', lambda m: '(T %s %s)' % (m.group(1), m.group(2)), cond)
+        py = py.replace('(bool)', '')
+        py = py.replace('||', ' or ').replace('&&', ' and ').replace('|', ' or ').replace('&', ' and ')
+        py = re.sub(r'!(?!=)', ' not ', py)
+        if not re.match(r'^(?:[()\s]|T|==|!=|-?\d+|or|and|not)+$', py) or 'T' not in py:
+            return None
+        try:
+            return [t for t in ORDER if t in remaining and eval(py, {'__builtins__': {}}, {'T': int(t)})]
+        except Exception:
+            return None
     while cur:
         it = cur[0]
         if it[0] != 'alt':
-            break
-        ts_ = re.findall(r'\(\(int\)this\._data_type == (-?\d+)\)', it[1])
-        if not ts_ or not re.match(r'^[()| ]*(?:\(\(int\)this\._data_type == -?\d+\)[()| ]*)+$', it[1]):
+            # the closing else of the chain: it serves the types no earlier branch took
+            left = [t for t in ORDER if t not in seen]
+            if seen and left and len(left) < 4 and len({str(want.get(x)) for x in left}) == 1:
+                it = ('alt', ' | '.join('((int)this._data_type == %s)' % t for t in left), cur, [])
+            else:
+                break
+        ts_ = types_of(it[1], set(ORDER) - seen)
+        if not ts_:
             break
         for t_extra in ts_[1:]:
             # a shared branch (BYTE and INT): judged once, under its first label, with the same expectations
@@ -1481,6 +1500,10 @@ def payload_reader(prog, res, rule, f, ck):
             seen.add(t)
             if len(th) == 1 and th[0][0] == 'call' and t in want and th[0][1].usr == want[t][0] and all(th[0][2].get(k) == v for k, v in want[t][1].items()):
                 ck.ok('data[type=%s]' % t, ck.where(th[0]), 'elements read into %s by %s' % (list(want[t][1].values())[-1], th[0][1].name))
+            elif not th and any(x[0] == 'call' for x in it[2]):
+                # the branch calls something in which the rule sees no read (e.g. the read is handed down as a callable): not evidence that nothing is read
+                ck.shape('data[type=%s]' % t, ck.where(it), 'payload of type %s is read through %s, in which the rule finds no read of its own' %
+                         (t, ', '.join(x[1].name for x in it[2] if x[0] == 'call')))
             else:
                 ck.bad('data[type=%s]' % t, ck.where(th[0] if th else it), 'payload of type %s must be read by the matching reader into its own vector; found %s with %s' %
                        (t, describe(th[0]) if th else 'nothing', th[0][2] if th and th[0][0] == 'call' else ''))
@@ -1599,6 +1622,14 @@ def string_assembly_rule(prog, res, rule, g2):
         return ws if found else None
     for f, sub in fam:
         Rf = Renderer(f)
+        if f.usr != dm.usr:
+            # the joins are judged in terms of the parameter's own dimensions: the dispatcher must receive them as they are
+            for c_ in f.calls():
+                if c_['callee'].get('usr') == dm.usr and f.call_args(c_):
+                    a0 = Rf.render(f.call_args(c_)[0])
+                    a0 = substitute(a0, sub) if sub else a0
+                    if a0 != 'arg0':
+                        unknown = 'the string dispatcher is called at %s with dimensions (%s) that are not the parameter\'s own' % (f.loc(c_['id']), a0)
         if f.usr in outs:
             outp = outs[f.usr]
         else:
